@@ -8,7 +8,7 @@ from typing import Dict, List, Optional, Set, Tuple
 from ..core import astutil as A
 from ..core.index import AnalysisError, ClassInfo, FuncInfo, external_module
 from ..selftest import M
-from .common import T, attr_stores, calls_named, conds, every_origin, facts, need, subscript_stores, where
+from .common import may_conds, T, attr_stores, calls_named, conds, every_origin, facts, need, subscript_stores, where
 
 BASEW = "ufo2ft.featureWriters.baseFeatureWriter.BaseFeatureWriter"
 FC = "ufo2ft.featureCompiler.FeatureCompiler"
@@ -32,6 +32,7 @@ def run(prog, chk):
         "generated glyph classes never take a class name the feature file already defines: every writer hands its feature file to makeGlyphClassDefinitions, which reserves the existing names (R17.8)",
     ]
     chk.not_decided += ["index arithmetic of marker placement", "GSUB byte identity", "feaLib's asFea() round trip"]
+    chk.decided += ["a generated feature is inserted as its own top-level block; a user's block only ever loses statements in _insert (R17.9, shared with C20)"]
     chk.guard(r171, prog, chk)
     chk.guard(r172, prog, chk)
     chk.guard(r173, prog, chk)
@@ -40,6 +41,7 @@ def run(prog, chk):
     chk.guard(r176, prog, chk)
     chk.guard(r177, prog, chk)
     chk.guard(r178, prog, chk)
+    chk.guard(check_generated_blocks_top_level, prog, chk, "R17.9")
 
 
 # ----------------------------------------------------------------------------- R17.1
@@ -489,7 +491,79 @@ def r178(prog, chk):
     chk.minimum("R17.8", 4)
 
 
+
+# ----------------------------------------------------------------------------- R17.9
+def check_generated_blocks_top_level(prog, chk, rule):
+    """A generated feature goes into the file as its own top-level block (next to the user's block that holds the marker),
+    never into a user's block: the statement list of a user block only ever loses statements in _insert (the marker
+    comment, or the tail that moves into a new block of the same name).  A generated lookup spliced into a user block
+    inherits whatever `script` / `language` statement precedes it and is no longer registered for every language system.
+    Shared with C20 (R20.7)."""
+    ix = prog.ix
+    ins = ix.get_method(BASEW, "_insert", own=True)
+    # the generated features, by role: the parameter enumerated by the loop that looks the markers up
+    fparam = []
+    for l_ in A.body_nodes(ins.node):
+        if isinstance(l_, ast.For) and isinstance(l_.iter, ast.Call) and A.callee_name(l_.iter) == "enumerate" and l_.iter.args and isinstance(l_.iter.args[0], ast.Name) \
+                and l_.iter.args[0].id in ins.params() and any("insertComments" in T(x) for x in ast.walk(l_) if isinstance(x, ast.Subscript)):
+            fparam.append(l_.iter.args[0].id)
+    need(len(fparam) == 1, f"cannot interpret {ins.short}: features parameter")
+    # names bound to user blocks: unpacked from insertComments[...]
+    blocks = set()
+    for st in A.stmts_of(ins.node):
+        if isinstance(st, ast.Assign) and isinstance(st.targets[0], ast.Tuple) and isinstance(st.value, ast.Subscript) and "insertComments" in T(st.value.value):
+            tn = A.target_names(st.targets[0])
+            if tn:
+                blocks.add(tn[0])
+    need(blocks, f"cannot interpret {ins.short}: marker blocks")
+    n = 0
+    for node in A.body_nodes(ins.node):
+        bad = None
+        recv = None
+        if isinstance(node, ast.Call) and isinstance(node.func, ast.Attribute) and node.func.attr in ("insert", "append", "extend", "__setitem__", "__iadd__"):
+            recv = node.func.value
+            if isinstance(recv, ast.Attribute) and recv.attr == "statements" and T(recv.value) in blocks:
+                bad = node
+        elif isinstance(node, ast.AugAssign) and isinstance(node.target, ast.Attribute) and node.target.attr == "statements" and T(node.target.value) in blocks:
+            bad = node
+        elif isinstance(node, ast.Assign):
+            for t in node.targets:
+                if isinstance(t, ast.Subscript) and isinstance(t.value, ast.Attribute) and t.value.attr == "statements" and T(t.value.value) in blocks:
+                    bad = node  # element / slice assignment into the user's block
+                elif isinstance(t, ast.Attribute) and t.attr == "statements" and T(t.value) in blocks:
+                    # whole-list assignment: only a slice of the block's own list
+                    v = node.value
+                    if not (isinstance(v, ast.Subscript) and isinstance(v.slice, ast.Slice) and T(v.value) == T(t)):
+                        bad = node
+                    else:
+                        n += 1
+                        chk.ob(rule, f"{ins.short}|{A.keytext(ins.node, node)}|a user block only loses statements", True, where(ins, node), detail="slice of its own statements")
+        if bad is not None:
+            n += 1
+            chk.ob(rule, f"{ins.short}|{A.keytext(ins.node, bad)}|a user block only loses statements", False, where(ins, bad), detail=T(bad, 70),
+                   message=f"{ins.short}: `{T(bad, 60)}` adds statements to a block of the user's feature file: generated code placed there inherits the block's "
+                           f"script / language context (and the user's block is no longer what the user wrote)")
+    # every generated feature block is inserted into the top-level statement list
+    tops = [c for c in A.body_nodes(ins.node) if isinstance(c, ast.Call) and isinstance(c.func, ast.Attribute) and c.func.attr == "insert" and len(c.args) == 2
+            and isinstance(c.func.value, ast.Name) and any(isinstance(d.value, ast.Attribute) and d.value.attr == "statements" and T(d.value.value) == ins.params()[1]
+                                                            for d in prog.reaching(ins, c.func.value.id, c.func.value) if d.value is not None)]
+    lp = [l for l in A.body_nodes(ins.node) if isinstance(l, ast.For) and fparam[0] in T(l.iter) and "enumerate" in T(l.iter)]
+    ok = False
+    if lp:
+        fv = A.target_names(lp[0].target)[-1]
+        mine = [c for c in tops if T(c.args[1]) == fv and any(a is lp[0] for a in ix.ancestors(c))]
+        cfg = prog.cfg(ins)
+        marker_if = [a for a in lp[0].body if isinstance(a, ast.If)]
+        ok = len(mine) == 1 and not [g for g in may_conds(prog, ins, mine[0]) if g.kind in ("if", "boolop") and any(a is lp[0] for a in ix.ancestors(g.loc))
+                                    and not (marker_if and g.loc is marker_if[0].test) and "insertComments" not in T(g.test)]
+    chk.ob(rule, f"{ins.short}|a feature with a marker is inserted as a top-level block on every path", ok, where(ins), detail="statements.insert(index, feature) for every marker position",
+           message=f"{ins.short}: for some marker position the generated feature block is not inserted into the file's top-level statements")
+    chk.minimum(rule, 2)
+
+
 MUTANTS = [
+    M("generated statements spliced into the user's block at a mid-block marker (seeded C20g shape)", "ufo2ft/featureWriters/baseFeatureWriter.py", "BaseFeatureWriter._insert",
+      "block.statements = block.statements[:markerIndex]", "block.statements = block.statements[:markerIndex]\nblock.statements[markerIndex:markerIndex] = feature.statements", rule="R17.9"),
     M("legacy kern writer builds its filtering class without the feature file (mutation scan run 2, k=154)", "ufo2ft/featureWriters/kernFeatureWriter2.py", "make_kerning_lookup",
       "ast.makeGlyphClassDefinitions({className: spacing}, feaFile=context.feaFile)", "ast.makeGlyphClassDefinitions({className: spacing})", rule="R17.8"),
     M("existing class names not reserved", "ufo2ft/featureWriters/ast.py", "makeGlyphClassDefinitions",
